@@ -109,9 +109,45 @@ async fn run_direct(log: &Log, c: &Case, pw: &str, descr: Value) {
     log.block(descr, vec![json!({"ev": "auth", "dev": c.dev, "pad": c.pad, "trunc": c.trunc, "total": c.bytes.len(), "res": result, "consumed": limit - left, "prelen": c.pre_len})]);
 }
 
-async fn run_net(log: &Log, r: &mut Rng, server: &str, n: u64) {
+/// A peer that sends a strict prefix of the preamble, stays silent for `pause_ms`, then sends frames
+/// (not the rest of the preamble): the connection never carried the password hash.
+async fn stalled(server: String, k: usize, pause_ms: u64, right_prefix: bool) -> Value {
     let cfg = anytls_rs::util::tls::create_client_config().unwrap();
     let connector = tokio_rustls::TlsConnector::from(cfg);
+    let target = net::start_target("127.0.0.1:0", TargetMode::Sink).await;
+    let mut dest = vec![1u8, 127, 0, 0, 1]; dest.extend_from_slice(&target.addr.port().to_be_bytes());
+    let mut frames = frame_bytes(4, 0, b"v=2\nclient=verif\npadding-md5=x");
+    frames.extend_from_slice(&frame_bytes(8, 0, &[]));
+    frames.extend_from_slice(&frame_bytes(1, 1, &[]));
+    frames.extend_from_slice(&frame_bytes(2, 1, &dest));
+    let hash = anytls_rs::hash_password(net::PASSWORD);
+    let mut pre = hash.to_vec(); pre.extend_from_slice(&[0, 4, 1, 2, 3, 4]);
+    if !right_prefix { pre[0] ^= 0x55; }
+    let dials0 = DIALS.lock().unwrap().len();
+    let descr = json!({"kind": "stalled", "prefix": k, "pause_ms": pause_ms, "right_prefix": right_prefix});
+    let none = json!({"ev": "authnet", "dev": true, "pad": 0, "trunc": -1, "total": 0, "dialled": false, "bytes": 0, "closed": true, "descr": descr});
+    let Ok(tcp) = tokio::net::TcpStream::connect(&server).await else { return none };
+    let name = tokio_rustls::rustls::pki_types::ServerName::IpAddress(std::net::IpAddr::from([127, 0, 0, 1]).into());
+    let Ok(mut tls) = connector.connect(name, tcp).await else { return none };
+    if k > 0 { let _ = tls.write_all(&pre[..k]).await; let _ = tls.flush().await; }
+    tokio::time::sleep(Duration::from_millis(pause_ms)).await;
+    let _ = tls.write_all(&frames).await; let _ = tls.flush().await;
+    let mut got = 0usize; let mut closed = false; let mut buf = [0u8; 512];
+    let dl = tokio::time::Instant::now() + Duration::from_millis(1500);
+    loop { match tokio::time::timeout_at(dl, tls.read(&mut buf)).await { Err(_) => break, Ok(Ok(0)) | Ok(Err(_)) => { closed = true; break } Ok(Ok(n)) => got += n } }
+    let port = target.addr.port();
+    let dialled = DIALS.lock().unwrap()[dials0..].iter().any(|d| d.1 == port);
+    json!({"ev": "authnet", "dev": true, "pad": 0, "trunc": -1, "total": k + frames.len(), "dialled": dialled, "bytes": got, "closed": closed, "descr": descr})
+}
+
+async fn run_net(log: &Log, r: &mut Rng, server: &str, n: u64, pause_ms: u64) {
+    let cfg = anytls_rs::util::tls::create_client_config().unwrap();
+    let connector = tokio_rustls::TlsConnector::from(cfg);
+    // stalled peers run beside everything else
+    let mut held = Vec::new();
+    for (k, right) in [(0usize, true), (1, true), (16, true), (20, true), (31, true), (31, false)] {
+        held.push(tokio::spawn(stalled(server.to_string(), k, pause_ms + r.below(400), right)));
+    }
     for i in 0..n {
         let target = net::start_target("127.0.0.1:0", TargetMode::Sink).await;
         let mut dest = vec![1u8, 127, 0, 0, 1]; dest.extend_from_slice(&target.addr.port().to_be_bytes());
@@ -146,6 +182,7 @@ async fn run_net(log: &Log, r: &mut Rng, server: &str, n: u64) {
         let dialled = DIALS.lock().unwrap()[dials0..].iter().any(|d| d.1 == port);
         log.block(json!({"kind": "net", "i": i, "abstract": sc}), vec![json!({"ev": "authnet", "dev": c.dev, "pad": c.pad, "trunc": c.trunc, "total": c.bytes.len(), "dialled": dialled, "bytes": got, "closed": closed})]);
     }
+    for h in held { if let Ok(mut e) = h.await { let d = e.as_object_mut().and_then(|o| o.remove("descr")).unwrap_or(json!({})); log.block(d, vec![e]); } }
 }
 
 pub fn run(args: &Args, log: &Log) -> Result<(), String> {
@@ -180,7 +217,7 @@ pub fn run(args: &Args, log: &Log) -> Result<(), String> {
         let rt = net::rt();
         rt.block_on(async {
             let server = net::start_server(PaddingFactory::default()).await;
-            run_net(log, &mut r, &server, if thorough { 400 } else { 40 }).await;
+            run_net(log, &mut r, &server, if thorough { 400 } else { 40 }, if thorough { 32000 } else { 6300 }).await;
         });
         rt.shutdown_timeout(Duration::from_millis(200));
         anytls_rs::verif::install(None);
